@@ -72,7 +72,12 @@ class ManifestPathEntry:
             raise ManifestSyntaxError(
                 f'Invalid escape sequence at pos {m.start()} '
                 f'of: {m.string}')
-        return chr(int(val[1:], base=16))
+        try:
+            return chr(int(val[1:], base=16))
+        except (ValueError, OverflowError):
+            raise ManifestSyntaxError(
+                f'Escape sequence out of range at pos {m.start()} '
+                f'of: {m.string}')
 
     @classmethod
     def process_path(cls, data):
@@ -83,7 +88,12 @@ class ManifestPathEntry:
             raise ManifestSyntaxError(
                 f'{data[0]} line: expected relative path, '
                 f'got: {data[1:]}')
-        return cls.escape_seq_re.sub(cls.decode_char, data[1])
+        path = cls.escape_seq_re.sub(cls.decode_char, data[1])
+        if path[0] == '/':
+            raise ManifestSyntaxError(
+                f'{data[0]} line: expected relative path, '
+                f'got: {data[1:]}')
+        return path
 
     @staticmethod
     def encode_char(m):
